@@ -125,7 +125,8 @@ def run(cx):
                  ("R10g", "whole text = newline-join of the generated lines"),
                  ("R10h", "line generators yield CHText objects"),
                  ("R10i", "colours do not influence layout (non-interference)"),
-                 ("R10j", "cached cell texts are never mutated in place by their consumers")):
+                 ("R10j", "cached cell texts are never mutated in place by their consumers"),
+                 ("R10k", "a yielded line does not share its chunk list with a buffer the generator keeps changing")):
         cx.rule(r, t)
 
     # ---------------- R10a
@@ -179,6 +180,9 @@ def run(cx):
     cx.guard(_r10i, cx, repo)
     # ---------------- R10j
     cx.guard(_r10j, cx, repo)
+    # ---------------- R10k
+    from rules.c08 import make_ownership
+    cx.guard(make_ownership, cx, repo, "R10k")
 
 
 # -------------------------------------------------------------------------------------------- R10c
